@@ -306,24 +306,9 @@ configure_fresh(const Pools& P, const Settings& st, const Model& M, bool use_cac
   return f;
 }
 
-//! set_up; for single-ring scanners with STIR's assertions off (finding C16-F2: the debug-only self check
-//! "fabs(m_last + m_first) < m_last * 10E-4" in ScatterSimulation::set_up is 0 < 0 for one ring)
 Succeeded
 set_up_obj(SingleScatterSimulation& s)
 {
-  const bool one_ring = s.has_template_proj_data_info() && s.get_template_proj_data_info_sptr()->get_scanner_ptr()->get_num_rings() == 1;
-  struct Guard
-  {
-    bool old;
-    Guard(bool off) : old(stir_verif::asserts_on)
-    {
-      if (off)
-        stir_verif::asserts_on = false;
-    }
-    ~Guard() { stir_verif::asserts_on = old; }
-  } guard(one_ring && !no_exclude("F2"));
-  if (one_ring)
-    stats().count("set_up for a single-ring scanner (assertions off)");
   return s.set_up();
 }
 
@@ -476,75 +461,20 @@ check(const json& c)
   Sim H;
   init_obj(H, st);
   Model M;
-  bool H_downsampled_in_set_up = false; // H has stored derived zoom factors ...
-  int auto_tmpl = -1, auto_att = -1;    // ... derived from this template and attenuation image
-  bool any_exclusion = false;
-  struct CountExcluded
-  {
-    bool& f;
-    ~CountExcluded()
-    {
-      if (f)
-        ++stats().excluded_known; // cases in which at least one event was rewritten to stay outside a known finding
-    }
-  } count_excluded{ any_exclusion };
-  int eff_exam = -1; // energy window in force when H computed its 511 keV efficiency (first process_data after a template change)
+  bool H_downsampled_in_set_up = false; // statistics only
   long n_compared = 0, n_setters_since_process = 0;
   bool had_process = false;
   shared_ptr<ProjDataInMemory> H_out_pd;
 
   // set_up on H with the same outcome as on a fresh object; returns false if both reject the configuration
-  auto do_set_up = [&](bool& rejected, int c_arg, int d_arg) -> Result {
+  auto do_set_up = [&](bool& rejected) -> Result {
     rejected = false;
+    // (histories that run into a known finding never get here unless VERIF_NO_EXCLUDE is set: known_signature())
     if (!M.sp_set)
       {
-        const bool one_ring = H.get_template_proj_data_info_sptr()->get_scanner_ptr()->get_num_rings() == 1;
-        if (one_ring && !st.explicit_zoom && !no_exclude("F3"))
-          {
-            // KNOWN FINDING C16-F3: with the default (automatic) zoom settings a single-ring template gives a scatter-point
-            // image of ONE plane, zoom_z = (1-1)/(old_z-1) = 0, voxel size z = inf and NaN output.  Excluded.
-            any_exclusion = true;
-            stats().count("excluded: automatic scatter-point down-sampling for a single-ring scanner");
-            M.sp = decode_sp(P, M.att, c_arg, 1, d_arg, M.tmpl);
-            M.sp_set = true;
-            H.set_density_image_for_scatter_points_sptr(make_sp(P, M.sp));
-          }
-        else if (H_downsampled_in_set_up && !st.explicit_zoom && !no_exclude("F4")
-                 && !(auto_tmpl == M.tmpl && same_grid(c["atts"][std::size_t(auto_att)], c["atts"][std::size_t(M.att)])))
-          {
-            // KNOWN FINDING C16-F4 (work/notes/C16_findings.md): set_up's automatic down-sampling overwrites the
-            // "automatic" (-1) zoom settings with derived numbers, so a second automatic down-sampling on the same object
-            // re-uses factors derived from the old attenuation image/template.  Excluded (unless template and attenuation grid
-            // are the ones of the first automatic down-sampling): give an explicit scatter-point image.
-            any_exclusion = true;
-            stats().count("excluded: second automatic scatter-point down-sampling");
-            M.sp = decode_sp(P, M.att, c_arg, 1, d_arg, M.tmpl);
-            M.sp_set = true;
-            H.set_density_image_for_scatter_points_sptr(make_sp(P, M.sp));
-          }
-        else
-          {
-            stats().count("set_up with automatic scatter-point down-sampling");
-            if (H_downsampled_in_set_up)
-              stats().count("repeated automatic down-sampling on one object");
-            else
-              {
-                auto_tmpl = M.tmpl;
-                auto_att = M.att;
-              }
-          }
-      }
-    if (eff_exam >= 0 && !no_exclude("F1")
-        && (P.exams[eff_exam]->get_low_energy_thres() != P.exams[M.exam]->get_low_energy_thres()
-            || P.exams[eff_exam]->get_high_energy_thres() != P.exams[M.exam]->get_high_energy_thres()))
-      {
-        // KNOWN FINDING C16-F1: detector_efficiency_no_scatter (efficiency at 511 keV used for normalisation) is computed
-        // lazily by the first process_data after set_template_proj_data_info and never reset by set_exam_info/set_up.
-        // Excluded: an energy-window change after a process_data is accompanied by re-setting the (same) template on H.
-        any_exclusion = true;
-        stats().count("excluded: energy window changed after process_data (template re-set on the history object)");
-        apply_tmpl(H, P.tmpls[M.tmpl]);
-        eff_exam = -1;
+        stats().count("set_up with automatic scatter-point down-sampling");
+        if (H_downsampled_in_set_up)
+          stats().count("repeated automatic down-sampling on one object");
       }
     bool h_threw = false;
     std::string h_msg;
@@ -614,7 +544,6 @@ check(const json& c)
         case SET_TMPL:
           M.tmpl = a % int(P.tmpls.size());
           apply_tmpl(H, P.tmpls[M.tmpl]);
-          eff_exam = -1;
           M.dirty = true;
           ++n_setters_since_process;
           break;
@@ -643,7 +572,7 @@ check(const json& c)
           if (code == SET_UP || M.dirty)
             {
               bool rejected;
-              Result r = do_set_up(rejected, cc, d);
+              Result r = do_set_up(rejected);
               if (r.failed())
                 return r;
               if (rejected)
@@ -661,8 +590,6 @@ check(const json& c)
           Result r = run(H, H_out_pd, h_out, "history object");
           if (r.failed())
             return r;
-          if (eff_exam < 0)
-            eff_exam = M.exam;
           Fresh f;
           try
             {
@@ -704,7 +631,7 @@ check(const json& c)
     {
       // bring H (and, through the exclusions, the model) to a set-up state as for a SET_UP event
       bool rejected;
-      Result r = do_set_up(rejected, 0, 0);
+      Result r = do_set_up(rejected);
       if (r.failed())
         return r;
       if (rejected)
@@ -803,6 +730,166 @@ check(const json& c)
   return Result::pass();
 }
 
+// ---- known findings: classification of a history without running it --------------------------------------
+// The same interpretation of the events as in check() (indices modulo the pools, set_up before a process_data that
+// follows a setter, set_up at the end of a history that ends with a setter), on the JSON only.
+//  F1 C16:stale-eff511:set_exam_info-after-process_data   set_up with an energy window that differs from the one in force at
+//     the first process_data after the last set_template_proj_data_info (detector_efficiency_no_scatter is never reset)
+//  F2 C16:single-ring:set_up-assert                       set_up with a single-ring template (debug assertion 0 < 0)
+//  F3 C16:single-ring:auto-zoom-NaN                       set_up that has to derive the scatter-point image with the default
+//     zoom settings for a single-ring template (one plane, zoom_z = 0, NaN)
+//  F4 C16:auto-zoom-overwritten:second-automatic-downsample   set_up that has to derive the scatter-point image with the
+//     default zoom settings on an object that already derived one for another template or attenuation grid
+//     (incl. F4b: derived image kept by set_template_proj_data_info)
+enum Finding
+{
+  NONE = 0,
+  F1,
+  F2,
+  F3,
+  F4
+};
+const char* const finding_id[] = { "", "F1", "F2", "F3", "F4" };
+const char* const finding_signature[] = { "",
+                                          "C16:stale-eff511:set_exam_info-after-process_data",
+                                          "C16:single-ring:set_up-assert",
+                                          "C16:single-ring:auto-zoom-NaN",
+                                          "C16:auto-zoom-overwritten:second-automatic-downsample" };
+
+struct Hit
+{
+  Finding f = NONE;
+  std::size_t op = 0; // index of the event whose set_up runs into it (== ops.size(): the set_up at the end of the history)
+  int tmpl = -1, att = -1;
+};
+
+int
+rings_of(const json& t)
+{
+  return t["kind"] == "down" ? t["new_rings"].get<int>() : t["scanner"]["rings"].get<int>();
+}
+
+//! first known finding (among those not switched off by VERIF_NO_EXCLUDE) the history runs into
+Hit
+first_known_finding(const json& c)
+{
+  Hit none;
+  const json& ops = c["ops"];
+  const int nt = int(c["templates"].size()), ne = int(c["exams"].size()), na = int(c["acts"].size()), nm = int(c["atts"].size());
+  if (nt == 0 || ne == 0 || na == 0 || nm == 0)
+    return none;
+  const bool explicit_zoom = c["auto_zoom"].is_object();
+  int tmpl = -1, exam = -1, act = -1, att = -1;
+  bool sp_set = false, use_cache = true, dirty = true, derived = false;
+  int auto_tmpl = -1, auto_att = -1, eff_exam = -1;
+  auto set_up_point = [&](std::size_t i) -> Hit {
+    Hit h;
+    h.op = i;
+    h.tmpl = tmpl;
+    h.att = att;
+    const int rings = rings_of(c["templates"][std::size_t(tmpl)]);
+    if (!sp_set && !explicit_zoom)
+      {
+        if (rings == 1 && !no_exclude("F3"))
+          {
+            h.f = F3;
+            return h;
+          }
+        if (derived && !no_exclude("F4") && !(auto_tmpl == tmpl && same_grid(c["atts"][std::size_t(auto_att)], c["atts"][std::size_t(att)])))
+          {
+            h.f = F4;
+            return h;
+          }
+      }
+    if (!sp_set && !derived)
+      {
+        derived = true;
+        auto_tmpl = tmpl;
+        auto_att = att;
+      }
+    if (rings == 1 && !no_exclude("F2"))
+      {
+        h.f = F2;
+        return h;
+      }
+    if (eff_exam >= 0 && !no_exclude("F1")
+        && (c["exams"][std::size_t(eff_exam)]["low"] != c["exams"][std::size_t(exam)]["low"]
+            || c["exams"][std::size_t(eff_exam)]["high"] != c["exams"][std::size_t(exam)]["high"]))
+      {
+        h.f = F1;
+        return h;
+      }
+    dirty = false;
+    return h;
+  };
+  for (std::size_t i = 0; i < ops.size(); ++i)
+    {
+      const int code = ops[i][0].get<int>() % N_OPS;
+      const int a = ops[i][1];
+      switch (code)
+        {
+        case SET_ACT: act = a % na; dirty = true; break;
+        case SET_ATT: att = a % nm; sp_set = false; dirty = true; break;
+        case SET_SP: sp_set = true; dirty = true; break;
+        case SET_TMPL: tmpl = a % nt; eff_exam = -1; dirty = true; break;
+        case SET_EXAM: exam = a % ne; dirty = true; break;
+        case SET_CACHE:
+          if (use_cache != bool(a & 1))
+            dirty = true;
+          use_cache = bool(a & 1);
+          break;
+        default:
+          if (tmpl < 0 || exam < 0 || act < 0 || att < 0)
+            break;
+          if (code == SET_UP || dirty)
+            {
+              const Hit h = set_up_point(i);
+              if (h.f != NONE)
+                return h;
+            }
+          if (code == PROCESS && eff_exam < 0)
+            eff_exam = exam;
+          break;
+        }
+    }
+  if (tmpl >= 0 && exam >= 0 && act >= 0 && att >= 0 && dirty)
+    {
+      const Hit h = set_up_point(ops.size());
+      if (h.f != NONE)
+        return h;
+    }
+  return none;
+}
+
+std::string
+known_signature(const json& c)
+{
+  return finding_signature[first_known_finding(c).f];
+}
+
+//! generator side: rewrite the history so that it stays outside the known findings (the search goes on behind them):
+//! F3/F4: give an explicit scatter-point image before the set_up; F1: re-set the (same) template before the set_up
+void
+avoid_known_findings(json& c, Src& s)
+{
+  for (int guard = 0; guard < 200; ++guard)
+    {
+      const Hit h = first_known_finding(c);
+      if (h.f == NONE)
+        return;
+      json op;
+      if (h.f == F3 || h.f == F4)
+        op = { int(SET_SP), h.att, int(s.range(0, 999)), 1 + 3 * int(s.range(0, 4)), int(s.range(0, 999)) };
+      else if (h.f == F1)
+        op = { int(SET_TMPL), h.tmpl, 0, 0, 0 };
+      else
+        return; // F2: the generator does not make single-ring templates while F2 is excluded
+      stats().count(std::string("generator avoided known finding ") + finding_id[h.f]);
+      json& ops = c["ops"];
+      ops.insert(ops.begin() + std::ptrdiff_t(std::min(h.op, ops.size())), op);
+    }
+}
+
 // ---- generator ---------------------------------------------------------------------------------------
 json
 gen_image_spec(Src& s, double extent_xy, double L, int nz, bool attenuation, double thr)
@@ -890,7 +977,9 @@ gen(Src& s, int size)
     {
       json t;
       const int ndet = 2 * int(s.range(2, 8)); // 4..16
-      const int rings = int(s.pick(std::vector<int>{ 1, 2, 2, 2, 3, 3, 3, 3 }));
+      // (single-ring scanners: known finding F2, generated only when that exclusion is lifted)
+      const int rings_drawn = int(s.pick(std::vector<int>{ 1, 2, 2, 2, 3, 3, 3, 3 }));
+      const int rings = (rings_drawn == 1 && !no_exclude("F2")) ? 2 : rings_drawn;
       const double ring_spacing = axial_len / rings;
       if (s.chance(2, 3))
         {
@@ -1002,6 +1091,7 @@ gen(Src& s, int size)
   if (s.chance(2, 3))
     push(PROCESS);
   c["ops"] = ops;
+  avoid_known_findings(c, s);
   return c;
 }
 
@@ -1058,5 +1148,6 @@ the_property()
   p.check = check;
   p.nontrivial = nontrivial;
   p.shrink_lists = { "ops" };
+  p.known_signature = known_signature;
   return p;
 }
